@@ -48,6 +48,8 @@ struct Item {
     sql: String,
     /// entry points exercised besides `lint_string`
     entries: Vec<Entry>,
+    /// counters of a placeholder-templated source (shorter, equal, longer values; leading placeholders)
+    templ: Option<[usize; 4]>,
 }
 
 /// The public ways of linting / fixing one text (`crates/lib/src/core/linter/core.rs`).
@@ -411,7 +413,8 @@ fn parse_cfg(config: &str) -> Option<[KindCfg; 5]> {
         let line = line.trim();
         if let Some(sec) = line.strip_prefix('[').and_then(|l| l.strip_suffix(']')) {
             cur = sec.strip_prefix("sqruff:rules:").and_then(|name| KINDS.iter().position(|(s, _)| *s == name));
-            if cur.is_none() && sec != "sqruff" {
+            // the placeholder templater's section (style and parameter values) says nothing about the rules
+            if cur.is_none() && sec != "sqruff" && sec != "sqruff:templater:placeholder" {
                 return None;
             }
             continue;
@@ -475,6 +478,14 @@ use sqruff_lib_core::parser::segments::base::ErasedSegment;
 ///   identifiers, quoted identifiers (a quoted user-defined type name) and quoted literals.
 /// `ignore_words` exempts a token whose lower-cased text is on the list, `ignore_words_regex` one that matches;
 /// the types rule reads neither list.
+/// Does the token come out of a placeholder's value? Read off the templater's slice table (`sliced_file`), not
+/// through `is_templated` / `is_source_slice_literal` (the code under observation).
+fn in_placeholder(seg: &ErasedSegment) -> bool {
+    let Some(pm) = seg.get_position_marker() else { return false };
+    let ts = &pm.templated_slice;
+    pm.templated_file.sliced_file.iter().any(|s| s.slice_type != "literal" && s.templated_slice.start < ts.end && ts.start < s.templated_slice.end)
+}
+
 fn scope(tree: &ErasedSegment, dialect: &str, cfg: &[KindCfg; 5]) -> [Vec<Tok>; 5] {
     const CRAWLED: [&[SyntaxKind]; 4] = [
         &[SyntaxKind::Keyword, SyntaxKind::BinaryOperator, SyntaxKind::DatePart],
@@ -486,7 +497,7 @@ fn scope(tree: &ErasedSegment, dialect: &str, cfg: &[KindCfg; 5]) -> [Vec<Tok>; 
     fn tok(seg: &ErasedSegment, k: &KindCfg, lists: bool) -> Tok {
         let raw = seg.raw().to_string();
         Tok {
-            templated: seg.is_templated(),
+            templated: in_placeholder(seg),
             ignored_word: lists && k.words.contains(&raw.to_lowercase()),
             ignored_regex: lists && k.regex.iter().any(|r| r.is_match(&raw)),
             raw,
@@ -571,6 +582,159 @@ fn apply_case(policy: &str, raw: &str) -> Option<String> {
         }
         _ => return None,
     })
+}
+
+// ---------------------------------------------------------------- placeholder-templated sources
+/// (style, the character that must not occur in the text before templatising, positional)
+const PH_STYLES: [(&str, char, bool); 9] = [
+    ("colon", ':', false),
+    ("numeric_colon", ':', false),
+    ("pyformat", '%', false),
+    ("dollar", '$', false),
+    ("numeric_dollar", '$', false),
+    ("question_mark", '?', true),
+    ("percent", '%', true),
+    ("ampersand", '&', false),
+    ("ampersand", '&', false),
+];
+
+/// What `templatise` did to a text.
+struct Templated {
+    sql: String,
+    style: &'static str,
+    params: Vec<(String, String)>,
+    /// placeholders whose value is shorter / as long as / longer than the placeholder text
+    shorter: usize,
+    equal: usize,
+    longer: usize,
+    /// placeholders that are the first token of their syntax element (select element, from element, expression ...)
+    leading: usize,
+}
+
+/// Turn `text` into a source for the placeholder templater that renders back to `text`: whole tokens (naked
+/// identifiers, integer literals, simple quoted strings, function names and — `keywords` — any word) found by the
+/// dialect's own lexer/parser are replaced by placeholders of a random style whose parameter value is the token's
+/// text. Names are short or long, so values are shorter, as long as, or longer than the placeholder; any token can
+/// go, so placeholders start, sit inside and end syntax elements, with tokens to re-case before and after them.
+fn templatise(rng: &mut Rng, linter: &Linter, text: &str, density: (usize, usize), keywords: bool) -> Option<Templated> {
+    if !text.is_ascii() || text.contains('\r') {
+        return None;
+    }
+    let styles: Vec<&(&str, char, bool)> = PH_STYLES.iter().filter(|s| !text.contains(s.1)).collect();
+    if styles.is_empty() {
+        return None;
+    }
+    let &&(style, _, positional) = rng.pick(&styles);
+    let numeric = style.starts_with("numeric");
+    let tree = parse_tree(linter, text)?;
+    let mut out = String::new();
+    let mut params = vec![];
+    let (mut shorter, mut equal, mut longer, mut leading) = (0, 0, 0, 0);
+    let mut pos = 0usize;
+    let mut n = 0usize;
+    // first leaves of the syntax elements (any node with more than one code leaf)
+    let mut firsts: std::collections::HashSet<usize> = Default::default();
+    fn mark(seg: &ErasedSegment, firsts: &mut std::collections::HashSet<usize>) {
+        if seg.segments().is_empty() {
+            return;
+        }
+        let leaves: Vec<ErasedSegment> = seg.get_raw_segments().into_iter().filter(|l| l.is_code()).collect();
+        if leaves.len() > 1 {
+            if let Some(pm) = leaves[0].get_position_marker() {
+                firsts.insert(pm.source_slice.start);
+            }
+        }
+        for c in seg.segments() {
+            mark(c, firsts);
+        }
+    }
+    mark(&tree, &mut firsts);
+    for leaf in tree.get_raw_segments() {
+        let Some(pm) = leaf.get_position_marker() else { continue };
+        let sl = pm.source_slice.clone();
+        if sl.start < pos || sl.end > text.len() || sl.is_empty() || text.get(sl.clone()) != Some(leaf.raw().as_str()) {
+            continue;
+        }
+        let raw = &text[sl.clone()];
+        let word = raw.bytes().all(|b| b.is_ascii_alphanumeric() || b == b'_') && !raw.as_bytes()[0].is_ascii_digit();
+        let eligible = match leaf.get_type() {
+            SyntaxKind::NakedIdentifier | SyntaxKind::FunctionNameIdentifier => word,
+            SyntaxKind::NumericLiteral => raw.len() <= 9 && raw.bytes().all(|b| b.is_ascii_digit()) && (raw.len() == 1 || !raw.starts_with('0')),
+            SyntaxKind::QuotedLiteral => raw.len() > 2 && raw.starts_with('\'') && raw.ends_with('\'') && raw[1..raw.len() - 1].bytes().all(|b| b.is_ascii_alphanumeric() || b == b'_'),
+            SyntaxKind::Keyword | SyntaxKind::NullLiteral | SyntaxKind::BooleanLiteral | SyntaxKind::DataTypeIdentifier => keywords && word,
+            _ => false,
+        };
+        // values the ini reader would turn into something else
+        let ini_odd = ["true", "false", "none"].contains(&raw.to_ascii_lowercase().as_str());
+        // the placeholder regexes look at the neighbouring characters
+        let before_ok = sl.start == 0 || !matches!(text.as_bytes()[sl.start - 1], b'a'..=b'z' | b'A'..=b'Z' | b'0'..=b'9' | b'_' | b'\\' | b':' | b'&' | b'$' | b'%');
+        let after_ok = sl.end == text.len() || !matches!(text.as_bytes()[sl.end], b'a'..=b'z' | b'A'..=b'Z' | b'0'..=b'9' | b'_' | b':' | b'}');
+        if !eligible || ini_odd || !before_ok || !after_ok || !rng.chance(density.0, density.1) {
+            continue;
+        }
+        n += 1;
+        let name = if positional || numeric {
+            n.to_string()
+        } else {
+            match rng.below(4) {
+                0 => format!("p{}", n),
+                1 => format!("v{}", n),
+                2 => format!("param_{}", n),
+                _ => format!("a_rather_long_parameter_name_{}", n),
+            }
+        };
+        let braces = rng.chance(1, 2);
+        let ph = match style {
+            "colon" | "numeric_colon" => format!(":{}", name),
+            "pyformat" => format!("%({})s", name),
+            "dollar" | "numeric_dollar" => if braces { format!("${{{}}}", name) } else { format!("${}", name) },
+            "question_mark" => "?".to_string(),
+            "percent" => "%s".to_string(),
+            _ => if braces { format!("&{{{}}}", name) } else { format!("&{}", name) },
+        };
+        match raw.len().cmp(&ph.len()) {
+            std::cmp::Ordering::Less => shorter += 1,
+            std::cmp::Ordering::Equal => equal += 1,
+            std::cmp::Ordering::Greater => longer += 1,
+        }
+        if firsts.contains(&sl.start) {
+            leading += 1;
+        }
+        out.push_str(&text[pos..sl.start]);
+        out.push_str(&ph);
+        params.push((name, raw.to_string()));
+        pos = sl.end;
+    }
+    out.push_str(&text[pos..]);
+    if n == 0 {
+        return None;
+    }
+    Some(Templated { sql: out, style, params, shorter, equal, longer, leading })
+}
+
+/// The configuration text with the placeholder templater switched on; `None` when the ini reader does not hand
+/// every parameter value back as written (the text is all a replay or the command line gets).
+fn templated_config(config: &str, t: &Templated) -> Option<String> {
+    let head = "rules = CP01,CP02,CP03,CP04,CP05\n";
+    let at = config.find(head)? + head.len();
+    let mut s = format!("{}templater = placeholder\n{}[sqruff:templater:placeholder]\nparam_style = {}\n", &config[..at], &config[at..], t.style);
+    for (k, v) in &t.params {
+        s.push_str(&format!("{} = {}\n", k, v));
+    }
+    let cfg = catch(|| FluffConfig::from_source(&s, None)).ok()?;
+    let m = cfg.raw.get("templater")?.as_map()?.get("placeholder")?.as_map()?;
+    for (k, v) in &t.params {
+        let x = m.get(k.as_str())?;
+        let back = match (x.as_string(), x.as_int()) {
+            (Some(s), None) => s.to_string(),
+            (None, Some(i)) => i.to_string(),
+            _ => return None,
+        };
+        if back != *v {
+            return None;
+        }
+    }
+    Some(s)
 }
 
 fn parse_tree(linter: &Linter, sql: &str) -> Option<ErasedSegment> {
@@ -721,7 +885,8 @@ fn protected_slices(linter: &Linter, sql: &str) -> Option<Vec<(std::ops::Range<u
         let mut v = vec![];
         for seg in tree.get_raw_segments() {
             let raw = seg.raw();
-            let protected = seg.is_comment() || raw.contains('\'') || raw.contains('"') || raw.contains('`');
+            // a placeholder is as untouchable as a quoted leaf: re-casing its name changes the parameter it reads
+            let protected = seg.is_comment() || raw.contains('\'') || raw.contains('"') || raw.contains('`') || in_placeholder(&seg);
             if !protected {
                 continue;
             }
@@ -1011,7 +1176,7 @@ fn observe(it: &Item, entry: Entry, at: &str, linter: &mut Linter, sc: &Scratch,
                 }
             }
             out.count("protected_leaves_checked", prot.len());
-            out.direct(&format!("quoted-and-comments-untouched{}", at), bad.is_empty(), &key_of("protected"), &format!("{}: quoted identifier / literal / comment changed by the fix: {:?}", entry.name(), bad), input.clone());
+            out.direct(&format!("quoted-and-comments-untouched{}", at), bad.is_empty(), &key_of("protected"), &format!("{}: quoted identifier / literal / comment / placeholder changed by the fix (rendered text of the leaf): {:?}", entry.name(), bad), input.clone());
         }
         policy_reached(it, entry, at, &fixed, linter, scopes, &input, out);
     }
@@ -1097,7 +1262,7 @@ pub fn main(args: &Args) {
             Some(e) => vec![e],
             None => ALT_ENTRIES.to_vec(),
         };
-        items.push(Item { cls: "replay", dialect: j["dialect"].as_str().unwrap_or("ansi").to_string(), config: j["config"].as_str().unwrap_or("").to_string(), sql: j["sql"].as_str().unwrap_or("").to_string(), entries });
+        items.push(Item { cls: "replay", dialect: j["dialect"].as_str().unwrap_or("ansi").to_string(), config: j["config"].as_str().unwrap_or("").to_string(), sql: j["sql"].as_str().unwrap_or("").to_string(), entries, templ: None });
     } else {
         let none = Ignore::default();
         // hand-written statements × every uniform policy × a few dialects, plus mixed policies
@@ -1105,10 +1270,10 @@ pub fn main(args: &Args) {
             for k in 0..POLICIES.len() + 2 {
                 let pol = gen_policies(&mut rng, k);
                 for d in ["ansi", DIALECTS[(i + k) % DIALECTS.len()]] {
-                    items.push(Item { cls: "snippet", dialect: d.to_string(), config: mk_config(d, &pol, &none), sql: s.to_string(), entries: vec![] });
+                    items.push(Item { cls: "snippet", dialect: d.to_string(), config: mk_config(d, &pol, &none), sql: s.to_string(), entries: vec![], templ: None });
                 }
                 let ig = gen_ignore(&mut rng, s);
-                items.push(Item { cls: "snippet-ignore-words", dialect: "ansi".into(), config: mk_config("ansi", &pol, &ig), sql: s.to_string(), entries: vec![] });
+                items.push(Item { cls: "snippet-ignore-words", dialect: "ansi".into(), config: mk_config("ansi", &pol, &ig), sql: s.to_string(), entries: vec![], templ: None });
             }
         }
         let corpus = corpus();
@@ -1123,7 +1288,7 @@ pub fn main(args: &Args) {
             let k = rng.below(POLICIES.len() + 4);
             let pol = gen_policies(&mut rng, k);
             let ig = gen_ignore(&mut rng, &f.text);
-            items.push(Item { cls: "corpus", dialect: f.dialect.clone(), config: mk_config(&f.dialect, &pol, &ig), sql: f.text.clone(), entries: vec![] });
+            items.push(Item { cls: "corpus", dialect: f.dialect.clone(), config: mk_config(&f.dialect, &pol, &ig), sql: f.text.clone(), entries: vec![], templ: None });
         }
         for _ in 0..n_scr {
             let f = &corpus[rng.below(corpus.len())];
@@ -1135,7 +1300,51 @@ pub fn main(args: &Args) {
             let pol = gen_policies(&mut rng, k);
             let ig = gen_ignore(&mut rng, &sql);
             let d = if rng.chance(1, 6) { DIALECTS[rng.below(DIALECTS.len())].to_string() } else { f.dialect.clone() };
-            items.push(Item { cls, dialect: d.clone(), config: mk_config(&d, &pol, &ig), sql, entries: vec![] });
+            items.push(Item { cls, dialect: d.clone(), config: mk_config(&d, &pol, &ig), sql, entries: vec![], templ: None });
+        }
+    }
+    if args.flag("--replay-input").is_none() {
+        // ---- placeholder-templated sources: the statements and corpus files above with tokens turned into placeholders
+        // (templater = placeholder). What `fix` writes is the *source* (placeholders kept); every clause is observed on it,
+        // re-rendered and re-linted under the same configuration.
+        let corpus = corpus();
+        let mut plain: std::collections::HashMap<String, Option<Linter>> = Default::default();
+        let n_templ = if args.thorough() { 3000 } else { 330 };
+        let mut made = 0;
+        let mut tries = 0;
+        while made < n_templ && tries < n_templ * 6 {
+            tries += 1;
+            // one in three from the hand-written statements, the others from the corpus (half of them case-scrambled)
+            let (text, dialect, base): (String, String, &'static str) = if rng.chance(1, 3) {
+                let i = rng.below(SNIPPETS.len());
+                let d = if rng.chance(1, 2) { "ansi" } else { DIALECTS[rng.below(DIALECTS.len())] };
+                (SNIPPETS[i].to_string(), d.to_string(), "snippet")
+            } else {
+                let f = &corpus[rng.below(corpus.len())];
+                if f.text.len() > 3000 {
+                    continue;
+                }
+                if rng.chance(1, 2) { (scramble(&mut rng, &f.text).0, f.dialect.clone(), "scramble") } else { (f.text.clone(), f.dialect.clone(), "corpus") }
+            };
+            let linter = plain.entry(dialect.clone()).or_insert_with(|| catch(|| Linter::new(FluffConfig::from_source(&format!("[sqruff]\ndialect = {}\n", dialect), None), None, None, true)).ok());
+            let Some(linter) = linter else { continue };
+            let density = *rng.pick(&[(1usize, 8usize), (1, 3), (2, 3)]);
+            let keywords = rng.chance(1, 4);
+            let Some(t) = templatise(&mut rng, linter, &text, density, keywords) else { continue };
+            let k = rng.below(POLICIES.len() + 4);
+            let pol = gen_policies(&mut rng, k);
+            let ig = if rng.chance(1, 3) { gen_ignore(&mut rng, &text) } else { Ignore::default() };
+            let Some(config) = templated_config(&mk_config(&dialect, &pol, &ig), &t) else { continue };
+            let cls = match (base, keywords) {
+                ("snippet", false) => "templated-snippet",
+                ("snippet", true) => "templated-snippet-keywords",
+                ("scramble", false) => "templated-scramble",
+                ("scramble", true) => "templated-scramble-keywords",
+                (_, false) => "templated-corpus",
+                (_, true) => "templated-corpus-keywords",
+            };
+            items.push(Item { cls, dialect, config, sql: t.sql, entries: vec![], templ: Some([t.shorter, t.equal, t.longer, t.leading]) });
+            made += 1;
         }
     }
     let sqruff = args.flag("--sqruff").map(std::path::PathBuf::from);
@@ -1154,6 +1363,13 @@ pub fn main(args: &Args) {
     par_run(&mut out, &items, || Scratch::new(sqruff.clone()), |sc, it, buf| {
         run_one(it, sc, buf);
         buf.count(&format!("items_{}", it.cls), 1);
+        if let Some([shorter, equal, longer, leading]) = it.templ {
+            buf.count("templated_sources", 1);
+            buf.count("placeholders_value_shorter_than_placeholder", shorter);
+            buf.count("placeholders_value_as_long_as_placeholder", equal);
+            buf.count("placeholders_value_longer_than_placeholder", longer);
+            buf.count("placeholders_leading_a_syntax_element", leading);
+        }
     });
     let _ = std::fs::remove_dir_all(scratch_base());
     out.finish();
